@@ -272,6 +272,36 @@ def state_digest(obj):
     return digest(state)
 
 
+_PLAIN = (type(None), bool, int, float, str, dict, list, tuple)
+
+
+def _plain(value, depth=0):
+    """True for nested None/bool/number/str/dict/list/tuple values (what a cache or a flag would be)."""
+    if depth > 6 or not isinstance(value, _PLAIN):
+        return False
+    if isinstance(value, dict):
+        return all(_plain(k, depth + 1) and _plain(v, depth + 1) for k, v in value.items())
+    if isinstance(value, (list, tuple)):
+        return all(_plain(v, depth + 1) for v in value)
+    return True
+
+
+def attribute_digest(obj):
+    """Digest of EVERY instance attribute (C07: a transform that writes any attribute alters the fitted
+    state, e.g. a cache filled at the first transform): names of all attributes, plus the value of
+    every attribute made of plain data only; other values (nested estimators, frames) by type name."""
+    state = {}
+    for name, value in sorted(vars(obj).items()):
+        if type(value) in (dict, list, tuple, type(None), bool, int, float, str) and _plain(value):
+            try:
+                state[name] = canon(value)
+            except Exception:  # pylint: disable=W0718
+                state[name] = "type:" + type(value).__name__
+        else:
+            state[name] = "type:" + type(value).__name__
+    return digest(state)
+
+
 def parsed_json(text):
     """A saved JSON string as a JSON value, the nested values_orders string parsed too."""
     doc = json.loads(text)
@@ -889,6 +919,7 @@ class Session:
         frame, meta = self.resolve_frame(op["frame"])
         where = f"step {step} transform({meta['base']}, {len(frame)} rows)"
         before = state_digest(self.live)
+        before_attrs = attribute_digest(self.live) if self.prop == "C07" else None
         outcome, arg = self.call_transform(self.live, frame)
         self.log.add("live", "transform", meta["key"], outcome[0], digest(canon_frame(outcome[1])) if outcome[0] == "ok" else str(type(outcome[1]).__name__))
         self.n_transform_frames.add(meta["key"])
@@ -909,6 +940,8 @@ class Session:
         if prop == "C07":
             if state_digest(self.live) != before:
                 raise _Fail("C07", "transform_leaves_state", f"{where}: fitted state changed by transform")
+            if attribute_digest(self.live) != before_attrs:
+                raise _Fail("C07", "transform_leaves_state", f"{where}: an instance attribute was written by transform")
             if outcome[0] == "ok":
                 self.check_shape("C07", frame, arg, outcome[1], where)
                 self.purity(frame, meta, outcome[1], where)
